@@ -296,7 +296,10 @@ func Scratch() string {
 	if d := os.Getenv("VERIF_SCRATCH"); d != "" {
 		return d
 	}
-	base := "/dev/shm"
+	base := os.Getenv("VERIF_SCRATCH_BASE")
+	if base == "" {
+		base = "/dev/shm"
+	}
 	if st, err := os.Stat(base); err != nil || !st.IsDir() {
 		base = os.TempDir()
 	}
@@ -650,6 +653,7 @@ func ReplayMain(chk *Check, tier string, seed int, file string, quiet bool) int 
 	if err := json.Unmarshal(b, &v); err != nil {
 		HarnessError("replay: %v", err)
 	}
+	os.Unsetenv("VERIF_SCRATCH") // a replay never shares (or removes) the scratch directory of a parent
 	defer os.RemoveAll(Scratch())
 	c := newCtx(chk.ID, tier, seed)
 	c.spec = v.Spec
